@@ -314,6 +314,27 @@ def dispatcher_wakeup(first: int, p1: int, p2: int, p3: int, nblocks: int) -> bo
     return False
 
 
+class _ArrivalEvent:
+    """the receiver trigger; new input becomes available in the same step that raises the trigger (the connection thread appends
+    to the buffer and then calls trigger_receiver) - not glued to the previous trigger"""
+
+    def __init__(self, ev, box):
+        self._ev, self._box = ev, box
+
+    def set(self):
+        self._box["input"] += 1
+        self._ev.set()
+
+    def wait(self, *a, **k):
+        return self._ev.wait(*a, **k)
+
+    def clear(self):
+        self._ev.clear()
+
+    def is_set(self):
+        return self._ev.is_set()
+
+
 def receiver_wakeup(first: int, p1: int, p2: int, p3: int, ntriggers: int) -> bool:
     """
     pre: 0 <= first <= 1 and 0 <= p1 <= p2 <= p3 <= 60
@@ -335,8 +356,15 @@ def receiver_wakeup(first: int, p1: int, p2: int, p3: int, ntriggers: int) -> bo
 
     def producer():
         for _ in range(ntriggers):
-            box["input"] += 1
-            yield from _G_TRIGGER(d)
+            g = _G_TRIGGER(d)
+            yield next(g)                 # schedule point in front of "new input + trigger"
+            box["input"] += 1             # the input arrives in the step that raises the trigger, not glued to the previous one
+            while True:
+                try:
+                    ann = next(g)
+                except StopIteration:
+                    break
+                yield ann
 
     results, order = stmt.run([lambda: _G_RECEIVE(d), producer], first, [p1, p2, p3])
     if results[1] == ("ret", None) and results[0] == ("deadlock",) and box["seen"] == ntriggers:
@@ -347,10 +375,10 @@ def receiver_wakeup(first: int, p1: int, p2: int, p3: int, ntriggers: int) -> bo
         def target2():
             box2["seen"] = box2["input"]
         d2 = ProtocolDispatcher(target2, lambda *a: None, RigSettings())
+        d2._receiver_thread_trigger = _ArrivalEvent(d2._receiver_thread_trigger, box2)
 
         def produce2():
             for _ in range(ntriggers):
-                box2["input"] += 1
                 d2.trigger_receiver()
         try:
             stmt.replay_lines([ProtocolDispatcher._receiver_thread_function, ProtocolDispatcher.trigger_receiver],
